@@ -282,8 +282,10 @@ def rule_f(ctx):
     if len(ms) < 3:
         raise AnchorLost("PendingSignals::add_signal instances")
     mx = F.const("signal_hook::iterator::backend::MAX_SIGNUM")["val"]
-    for m in ms:
-        ctx.fn(m)
+    from .nf import NF
+    for m0 in ms:
+        ctx.fn(m0)
+        m = NF(F, m0)
         eff = [(bb, t) for bb, t in m.calls() if t.get("f") is not None and
                (F.inst[t["f"]].defp.endswith("Exfiltrator::init") or F.inst[t["f"]].defp.startswith("signal_hook_registry::register") or
                 re.search(r"Exfiltrator>::init$", F.inst[t["f"]].name))]
